@@ -208,7 +208,7 @@ def run(pid):
     rnd = random.Random(seed() * 7919 + (6 if with_seeks else 7))
     for i in range(nbig):
         ch = rnd.choice([1, 2, 2, 3, 4, 6, 8])
-        bps = rnd.choice([8, 12, 16, 16, 20, 24, 32])
+        bps = rnd.choice([8, 12, 16, 16, 20, 24, 32, 13, 17, 23])
         bs = rnd.choice([16, 17, 32, 64, 192])
         nfr = rnd.randint(40, 60) if t == "quick" else rnd.randint(40, 120)
         while bs * nfr * ch * ((bps + 7) // 8) > 120000:
@@ -218,7 +218,7 @@ def run(pid):
         frames = bs * nfr - rnd.randint(0, bs - 1)
         fc = dict(id="R%d" % i, channels=ch, bps=bps, block_size=bs, frames=frames,
                   seek=rnd.choice(list(SHAPES)), known=rnd.random() < 0.8, signal=rnd.choice(["noise", "walk", "sine"]),
-                  seed=rnd.randint(1, 10 ** 6))
+                  seed=rnd.randint(1, 10 ** 6), rate=rnd.choice([44100, 44100, 96001, 1, 655351]))
         for fe in ("byte-le", "byte-be", "sample", "channel"):
             big.append((fc, fe))
 
